@@ -205,23 +205,16 @@ ORACLE = _load_oracle()
 NSLOTS = 24
 I64MIN, I64MAX = -(1 << 63), (1 << 63) - 1
 
-KEY_DESTROY = ("schedule[gc]:create 0 0;resume 0;destroy 0;status 0;ret 0 0;destroy 0 -> after the refused "
-               "destroy of the running coroutine (by itself) it is no longer registered in the GC and the later legal destroy of the "
-               "dead coroutine aborts with 'invalid unregister pointer' [coroutine.destroy calls gc:unregister before minicoro.destroy]")
-KEY_DESTROY_NORMAL = ("schedule[gc]:create 0 0;create 1 0;resume 0;resume 1;destroy 0;status 0;yield;ret 0 0;destroy 0 -> after the "
-                      "refused destroy of a normal coroutine (by the coroutine it resumed) it is no longer registered in the GC (its stack "
-                      "is not scanned any more) and the later legal destroy of it aborts with 'invalid unregister pointer' "
-                      "[coroutine.destroy calls gc:unregister before minicoro.destroy]")
-KEY_CLOSE_NORMAL = ("schedule[gc]:create 0 0;create 1 0;resume 0;resume 1;close 0;status 0;yield;yield;destroy 0 -> same defect through "
-                    "coroutine:__close (a <close> handle of a normal ancestor going out of scope inside the coroutine it resumed), then a legal "
-                    "destroy of the suspended coroutine aborts [coroutine.destroy calls gc:unregister before minicoro.destroy]")
-# (name, schedule, key)
+# Regression witnesses of the repaired defect (commit 1075c3a: coroutine.destroy used to call gc:unregister
+# before minicoro.destroy, so a refused destroy of a running/normal coroutine unregistered it from the GC and
+# the later legal destroy aborted with 'invalid unregister pointer').  Replayed on every GC build; they must
+# agree with the documented behaviour (reg stays true, the later destroy succeeds): a regression is a VIOLATION.
 WITNESSES = [
-    ("destroy-running", ["create 0 0", "resume 0", "destroy 0", "status 0", "ret 0 0", "destroy 0", "end"], KEY_DESTROY),
+    ("destroy-running", ["create 0 0", "resume 0", "destroy 0", "status 0", "ret 0 0", "status 0", "destroy 0", "status 0", "end"]),
     ("destroy-normal", ["create 0 0", "create 1 0", "resume 0", "resume 1", "destroy 0", "status 0", "yield", "status 0",
-                        "ret 0 0", "status 0", "destroy 0", "end"], KEY_DESTROY_NORMAL),
+                        "ret 0 0", "status 0", "destroy 0", "status 0", "end"]),
     ("close-normal", ["create 0 0", "create 1 0", "resume 0", "resume 1", "close 0", "status 0", "yield", "yield", "status 0",
-                      "destroy 0", "end"], KEY_CLOSE_NORMAL),
+                      "destroy 0", "status 0", "end"]),
 ]
 
 
@@ -262,8 +255,8 @@ def gen_schedule(rng, stream, gc, ncos, nops, maxchain, maxdepth):
     'invalid' the same plus every invalid transition (and, rarely, the documented panics);
     'rollback' the same plus multi-value push / resume(co, ...) / yield(...) whose first values fit and a
               later one overflows the storage, with values pending.
-    In GC builds a destroy of a running/normal coroutine is never generated (known defect,
-    replayed separately)."""
+    Destroy / close of running and normal coroutines (by themselves or by a coroutine they resumed) is part
+    of the invalid stream in every build."""
     ref = ORACLE.Ref(gc, NSLOTS)
     script = []
     stats = {}
@@ -333,7 +326,7 @@ def gen_schedule(rng, stream, gc, ncos, nops, maxchain, maxdepth):
                                      "push %d 0 1 0 0", "resumev %d 1 1 2 3", "drop %d 3", "peek %d 0"]) % k)
             elif c == 3 and w is None:
                 emit(rng.choice(["yield", "yieldv %d %s" % (1, vals(1))]))
-            elif c == 4 and act and not gc:
+            elif c == 4 and act:
                 # a coroutine destroys / closes itself or one of its (normal) resumers
                 emit(rng.choice(["destroy %d", "destroy %d", "close %d"]) % rng.choice(act))
             elif c == 5 and live:
@@ -605,23 +598,6 @@ def build_driver(ctx, tag, extra):
     return out
 
 
-def triggers_known(script, gc):
-    """does the schedule destroy/close a running or normal coroutine in a GC build (the known defect)?"""
-    if not gc:
-        return False
-    ref = ORACLE.Ref(True, NSLOTS)
-    for i, cmd in enumerate(script):
-        w = cmd.split()
-        if w[0] in ("destroy", "close"):
-            co = ref.slots.get(int(w[1]))
-            if co is not None and co.status in ("running", "normal"):
-                return True
-        ref.step(i, w)
-        if ref.done:
-            break
-    return False
-
-
 def destroys_live_frames(script, gc):
     """does the schedule destroy/close a coroutine that is suspended inside its body (frames still on its
     stack)?  Under -fsanitize=address the shadow of those frames stays poisoned after the munmap and the
@@ -641,10 +617,8 @@ def destroys_live_frames(script, gc):
 
 def shrink(binary, script, gc, budget=160):
     """delta debugging on the command list: keeps a schedule on which the implementation still differs
-    from the documented behaviour (and which stays clear of the known defect)."""
+    from the documented behaviour."""
     def fails(sc):
-        if triggers_known(sc, gc):
-            return False
         try:
             exp = norm_expected(ORACLE.run(sc, gc, NSLOTS))
         except Exception:
@@ -790,21 +764,25 @@ def correspond(ctx):
                                   (tag, name, got[:200], want[:200]),
                                   detail={"schedule": sc, "line": i, "no_longer_checks": "correspondence stream C18/" + name.split("-")[0]},
                                   failing_input=False)
-        # ---- known defect of the unchanged tree: replay the witnesses (GC builds)
+        # ---- regression witnesses of the repaired destroy defect (GC builds): must agree with the oracle
         if gcmode:
-            for wname, wsc, key in WITNESSES:
+            for wname, wsc in WITNESSES:
                 rc, ilines = run_impl(binary, wsc)
                 exp = norm_expected(ORACLE.run(wsc, True, NSLOTS))
                 mlines = norm_expected(run_model(model, [wsc], True)[0])
                 evaluations += sum(1 for l in ilines if l.startswith("> "))
+                n_runs += 1
                 d = first_diff(ilines, exp)
                 if d is not None:
                     i, got, want = d
-                    ctx.violation(key, "oracle",
-                                  "%s build, witness %s: implementation prints '%s', the documented behaviour is '%s'" % (tag, wname, got, want),
+                    ci = cmd_of_line(ilines, i)
+                    ctx.violation("schedule[%s]:witness-%s:%s:cmd%d" % (tag, wname, ";".join(wsc), ci), "oracle",
+                                  "%s build, witness %s (%s), command %d (%s): implementation prints '%s', the documented behaviour is '%s'" %
+                                  (tag, wname, "; ".join(wsc), ci, wsc[ci] if 0 <= ci < len(wsc) else "?", got[:200], want[:200]),
                                   detail={"schedule": wsc, "implementation": ilines[max(0, i - 3):i + 2], "oracle": exp[max(0, i - 3):i + 2],
                                           "model_agrees_with_implementation": first_diff(ilines, mlines) is None,
                                           "replay": "printf '%s\\n' | ./codriver" % "\\n".join(wsc)})
+                    continue
                 dm = first_diff(ilines, mlines)
                 if dm is not None:
                     ctx.violation("model-mismatch:witness", "correspondence",
